@@ -13,6 +13,7 @@
 import KiraModel.Proofs.TransportLemmas
 import KiraModel.Proofs.StaticLemmas
 import KiraModel.Proofs.LifecycleLemmas
+import KiraModel.Proofs.GenAgreeSound
 
 namespace K
 open Transport
